@@ -144,12 +144,12 @@ static std::string handle(const std::string& id, const std::string& op, const st
     return num(q);
   }
   if (op == "mul32") return num(u256_of_hex(a[0]) * (uint32_t)vh::parse_hex64(a[1]));
-  if (op == "shl") {
+  if (op == "shl" || op == "shl_g") {
     ArithUint256 x = u256_of_hex(a[0]);
     x <<= (unsigned int)vh::parse_hex64(a[1]);
     return num(x);
   }
-  if (op == "shr") {
+  if (op == "shr" || op == "shr_g") {
     ArithUint256 x = u256_of_hex(a[0]);
     x >>= (unsigned int)vh::parse_hex64(a[1]);
     return num(x);
@@ -159,7 +159,7 @@ static std::string handle(const std::string& id, const std::string& op, const st
   if (op == "inc") { ArithUint256 x = u256_of_hex(a[0]); ++x; return num(x); }
   if (op == "dec") { ArithUint256 x = u256_of_hex(a[0]); --x; return num(x); }
   if (op == "cmp") return vh::hexnum_s(u256_of_hex(a[0]).compareTo(u256_of_hex(a[1])));
-  if (op == "bits") return vh::hexnum(u256_of_hex(a[0]).bits());
+  if (op == "bits" || op == "bits_g") return vh::hexnum(u256_of_hex(a[0]).bits());
   if (op == "low64") return vh::hexnum(u256_of_hex(a[0]).getLow64());
   if (op == "ofu64") return num(ArithUint256((uint64_t)vh::parse_hex64(a[0])));
   if (op == "pfrombits") {
